@@ -47,6 +47,9 @@ type DS struct {
 	FailWrite func(attempt int, u Unit) bool
 	// FailRead, if set, decides whether a read of key fails.
 	FailRead func(key string) bool
+	// Yield, if set, is called (outside the lock) at the start of every datastore operation; a
+	// harness may sleep in it: datastore I/O is a natural suspension point.
+	Yield func(op, key string)
 	// HonorCtx makes every operation fail with ctx.Err() when its context is done.
 	HonorCtx bool
 	// NoTxn disables NewTransaction (returns an error), for a datastore flavour without it.
@@ -62,6 +65,12 @@ var (
 
 func New() *DS {
 	return &DS{hist: make(map[string][]entry), readsBy: make(map[string]int)}
+}
+
+func (d *DS) yield(op, key string) {
+	if f := d.Yield; f != nil {
+		f(op, key)
+	}
 }
 
 func (d *DS) ctxErr(ctx context.Context) error {
@@ -117,18 +126,22 @@ func (d *DS) apply(u Unit) error {
 }
 
 func (d *DS) Put(ctx context.Context, key ds.Key, value []byte) error {
+	d.yield("put", key.String())
 	if err := d.ctxErr(ctx); err != nil {
 		return err
 	}
+	defer d.yield("put-return", key.String())
 	d.mu.Lock()
 	defer d.mu.Unlock()
 	return d.apply(Unit{Ops: []Op{{Key: key.String(), Val: append([]byte(nil), value...)}}})
 }
 
 func (d *DS) Delete(ctx context.Context, key ds.Key) error {
+	d.yield("delete", key.String())
 	if err := d.ctxErr(ctx); err != nil {
 		return err
 	}
+	defer d.yield("delete-return", key.String())
 	d.mu.Lock()
 	defer d.mu.Unlock()
 	return d.apply(Unit{Ops: []Op{{Del: true, Key: key.String()}}})
@@ -156,9 +169,11 @@ func (d *DS) noteRead(key string) error {
 }
 
 func (d *DS) Get(ctx context.Context, key ds.Key) ([]byte, error) {
+	d.yield("get", key.String())
 	if err := d.ctxErr(ctx); err != nil {
 		return nil, err
 	}
+	defer d.yield("get-return", key.String()) // the answer travels back: it may be outdated on arrival
 	d.mu.Lock()
 	defer d.mu.Unlock()
 	if err := d.noteRead(key.String()); err != nil {
@@ -172,9 +187,11 @@ func (d *DS) Get(ctx context.Context, key ds.Key) ([]byte, error) {
 }
 
 func (d *DS) Has(ctx context.Context, key ds.Key) (bool, error) {
+	d.yield("has", key.String())
 	if err := d.ctxErr(ctx); err != nil {
 		return false, err
 	}
+	defer d.yield("has-return", key.String())
 	d.mu.Lock()
 	defer d.mu.Unlock()
 	if err := d.noteRead(key.String()); err != nil {
@@ -237,9 +254,11 @@ func (b *batch) Delete(ctx context.Context, key ds.Key) error {
 }
 
 func (b *batch) Commit(ctx context.Context) error {
+	b.d.yield("commit", "")
 	if err := b.d.ctxErr(ctx); err != nil {
 		return err
 	}
+	defer b.d.yield("commit-return", "")
 	b.d.mu.Lock()
 	defer b.d.mu.Unlock()
 	ops := b.ops
@@ -264,9 +283,11 @@ func (d *DS) NewTransaction(ctx context.Context, readOnly bool) (ds.Txn, error) 
 }
 
 func (t *txn) Get(ctx context.Context, key ds.Key) ([]byte, error) {
+	t.d.yield("txnget", key.String())
 	if err := t.d.ctxErr(ctx); err != nil {
 		return nil, err
 	}
+	defer t.d.yield("txnget-return", key.String())
 	t.d.mu.Lock()
 	defer t.d.mu.Unlock()
 	if err := t.d.noteRead(key.String()); err != nil {
